@@ -26,6 +26,23 @@ func Root() string {
 	return "/verif"
 }
 
+// RepoDir is the working tree of the repository the engines were built against.
+func RepoDir() string {
+	if r := os.Getenv("VERIF_REPO"); r != "" {
+		return r
+	}
+	return "/repo"
+}
+
+// OutDir is where evidence and replay files go (VERIF_OUT overrides /verif for scratch runs of
+// the sensitivity tooling, so that they do not overwrite the evidence of the registered checks).
+func OutDir() string {
+	if r := os.Getenv("VERIF_OUT"); r != "" {
+		return r
+	}
+	return Root()
+}
+
 func SeedFromEnv() uint64 {
 	if s := os.Getenv("VERIF_SEED"); s != "" {
 		if v, err := strconv.ParseUint(s, 10, 64); err == nil {
@@ -537,7 +554,7 @@ func (d *Driver) Check(id, tier string) int {
 			mp, n := d.Minimise(sc, r.Plan, sig, 120, 3*time.Minute)
 			rf.Plan, rf.Minimised, rf.ShrinkRuns = mp, true, n
 		}
-		path := filepath.Join(Root(), "replays", fmt.Sprintf("%s-%d-%d.json", id, seed, len(reported)))
+		path := filepath.Join(OutDir(), "replays", fmt.Sprintf("%s-%d-%d.json", id, seed, len(reported)))
 		os.MkdirAll(filepath.Dir(path), 0o755)
 		b, _ := json.MarshalIndent(rf, "", " ")
 		os.WriteFile(path, b, 0o644)
